@@ -148,6 +148,12 @@ func c03(tier string) []*explore.Scenario {
 		}
 	}
 	out = append(out, c03Foreign())
+	// a caller that reads late: bursts of up to 200 messages, then the handler's outcome
+	for _, m := range []int{2, 16, 17, 18, 40, 200} {
+		for _, fail := range []bool{true, false} {
+			out = append(out, c03LateReader("SStream", m, fail, 64), c03LateReader("Bidi", m, fail, 0))
+		}
+	}
 	out = append(out, apiSeqs("C03", tier)...)
 	out = append(out, handlerSeqs("C03", tier)...)
 	return out
@@ -451,4 +457,55 @@ func toV1(ms []proto.Message) []protoadapt.MessageV1 {
 		out[i] = protoadapt.MessageV1Of(m)
 	}
 	return out
+}
+
+// c03LateReader: the handler sends a burst of m messages and finishes (with a status or nil)
+// while the caller is not reading; the caller starts reading only when everything else has come
+// to rest. It then receives the m messages and exactly the handler's outcome, however far it
+// had fallen behind.
+func c03LateReader(kind string, m int, fail bool, capn int) *explore.Scenario {
+	fam := "C03/late-reader"
+	return &explore.Scenario{
+		Name: fmt.Sprintf("C03/late-reader/%s/m=%d/fail=%v/cap=%d", kind, m, fail, capn), Family: fam, Prop: "C03", Bound: 0,
+		Run: func() {
+			w := env.NewWorld()
+			d := env.NewDirect(w, env.DirectOpts{Pipe: env.PipeOpts{Cap: capn, Serialize: true}})
+			vsched.Settle()
+			var herr error
+			if fail {
+				st, _ := status.New(codes.FailedPrecondition, "burst then failure").WithDetails(&env.Msg{Value: []byte("detail")})
+				herr = st.Err()
+			}
+			r := w.Rec("s", kind)
+			w.Handlers["s"] = func(r *env.Rec, ss grpc.ServerStream) error {
+				if err := env.HBurst(m)(r, ss); err != nil {
+					return err
+				}
+				return herr
+			}
+			gate := make(chan struct{})
+			vsched.GoNamed("caller-s", func() {
+				cs := w.Open(d.CC, context.Background(), r)
+				if cs != nil {
+					env.CSend(r, cs, "go")
+					env.CClose(r, cs)
+					<-gate
+					env.CRecvAll(r, cs)
+				}
+				r.CDone = true
+			})
+			vsched.Quiesce()
+			close(gate)
+			vsched.Quiesce()
+			vsched.Obs("%s m=%d: done=%v received=%d err=%s", kind, m, r.CDone, len(r.CRecv), env.ErrStr(r.CErr))
+			if !r.CDone {
+				vsched.Fail(fam+"|caller-hang", "the caller started reading after a burst of %d messages and never finished: %s", m, r.Summary())
+				return
+			}
+			if len(r.CRecv) != m {
+				vsched.Fail(fam+"|messages", "the handler sent %d messages before finishing, the late reader received %d (then %s)", m, len(r.CRecv), env.ErrStr(r.CErr))
+			}
+			c03Same(fam, fmt.Sprintf("burst of %d to a late reader", m), herr, r.CErr, true)
+		},
+	}
 }
